@@ -48,6 +48,8 @@ pub uninterp spec fn vec_ref<T, A: core::alloc::Allocator>(b: &Vec<T, A>) -> &[T
 pub uninterp spec fn arr_ref<T, const N: usize>(a: &[T; N]) -> &[T];
 pub uninterp spec fn str_ref(b: &str) -> &[u8];
 pub uninterp spec fn string_ref(b: &String) -> &[u8];
+/// `<String as AsRef<str>>::as_ref` / `String::as_str`: the same characters
+pub uninterp spec fn string_str(b: &String) -> &str;
 /// UTF-8 encoding of a character sequence (total; identity on ASCII, injective, a monoid morphism: see trusted.rs)
 pub open spec fn utf8(c: Seq<char>) -> Seq<u8> { vstd::utf8::encode_utf8(c) }
 /// contents of a `Bytes`
